@@ -70,7 +70,8 @@ RULE = (
     "abandoned, overlapped (by another stream or a unary call) or ended by a client-side error; hand-written corpus + callbacks "
     "raising (an Exception, swallowed or propagated, or a non-Exception: KeyboardInterrupt, SystemExit, asyncio.CancelledError, a "
     "user-defined BaseException) at EVERY read position of every script shape; the same proxy method repeated before / inside / "
-    "after streams; self-ended servers that poll() cannot see yet (lazy exit) or can; + random "
+    "after streams; unary replies the client cannot validate / decode (its Protocol is one release behind the worker's: unknown "
+    "enum member, None for a non-optional, a record with another field, a str for an enum); self-ended servers that poll() cannot see yet (lazy exit) or can; + random "
     "configurations; per configuration every schedule with <= 2 (quick) / 3 (thorough) preemptions "
     "(capped), then PCT / random-walk schedules, some with line-level preemption of the pool methods. Non-trivial = at least "
     "two borrows were served; distinct by (configuration, schedule)"
@@ -262,7 +263,10 @@ def thread_main(ds: DetSched, env: dict[str, Any], cfg: dict[str, Any], jobs: li
         env["samples"].append(idle_total(pool))
 
 
-UNARY = ("echo", "noisy", "bad")
+UNARY = ("echo", "noisy", "bad", "phase", "maybe", "rec", "label")
+# unary methods on which the client's protocol is one release behind the worker's: with `bad` the reply arrives intact and
+# fails in the client's own validation / decoding of the value (`rec` always does)
+SKEWED = ("phase", "maybe", "rec", "label")
 
 
 def do_borrow(ds: DetSched, env: dict[str, Any], cfg: dict[str, Any], ti: int, ji: int, key: int, spec: dict[str, Any]) -> None:
@@ -278,7 +282,7 @@ def do_borrow(ds: DetSched, env: dict[str, Any], cfg: dict[str, Any], ti: int, j
     ds.emit("connect", key)
     entered = False
     try:
-        with pool.connect(poolsim.PoolSvc, list(cfg["keys"][key]), on_log=cb) as svc:
+        with pool.connect(poolsim.PoolSvcClient, list(cfg["keys"][key]), on_log=cb) as svc:
             entered = True
             pooled = svc._transport
             w = pooled._inner
@@ -305,6 +309,9 @@ def do_borrow(ds: DetSched, env: dict[str, Any], cfg: dict[str, Any], ti: int, j
                             v = svc.echo(k=num)
                         elif name == "noisy":
                             v = svc.noisy(k=num, n=op[1])
+                        elif name in SKEWED:
+                            v = getattr(svc, name)(k=num, bad=int(bool(op[1])))
+                            v = num if name in ("phase", "label") else (v.a if name == "rec" else v)
                         else:
                             v = svc.bad(k=num)
                         if v != num and not (isinstance(v, int) and own(v)):
@@ -628,11 +635,12 @@ MASK = [["open", "prod", 3, 0], ["tick"], ["open", "prod", 1, 0], ["tick"], ["cl
 MASK_H = [["open", "prod", 3, 0], ["tick"], ["open", "prodh", 1, 1], ["tick"], ["close"]]
 BADSTREAM = [["open", "badstream", 0, 0], ["echo"]]
 NOISY = [["noisy", 3], ["echo"]]
+SKEW = [["noisy", 2], ["maybe", 1], ["phase", 1], ["echo"]]
 SCRIPTS = {"prod_close": PROD_CLOSE, "prod_iter": PROD_ITER, "prod_abandon": PROD_ABANDON, "prod_cancel": PROD_CANCEL,
            "prodh_close": PRODH_CLOSE, "exch_close": EXCH_CLOSE, "exch_bad": EXCH_BAD, "mask": MASK, "mask_h": MASK_H,
-           "badstream": BADSTREAM, "noisy": NOISY}
+           "badstream": BADSTREAM, "noisy": NOISY, "skew": SKEW}
 # number of log lines a script delivers when nothing raises (= the read positions a callback can raise at)
-LOG_POSITIONS = {"noisy": 3, "prod_close": 4, "prod_iter": 6, "prod_cancel": 3, "prodh_close": 6, "exch_close": 2,
+LOG_POSITIONS = {"skew": 2, "noisy": 3, "prod_close": 4, "prod_iter": 6, "prod_cancel": 3, "prodh_close": 6, "exch_close": 2,
                  "prod_abandon": 2, "exch_bad": 1, "mask": 0, "mask_h": 1, "badstream": 0}
 
 CORPUS: list[dict[str, Any]] = [
@@ -654,6 +662,10 @@ CORPUS: list[dict[str, Any]] = [
     _c(1, [[B(0, MASK), B()], [B()]]),
     _c(1, [[B(0, PROD_CLOSE, cb={"from": 2}), B(), B()], [B()]]),
     _c(1, [[B(0, PROD_CANCEL, cb={"from": 3}, propagate=True), B(), B()]]),
+    # client and worker out of step on the protocol: the reply arrives intact, the CLIENT cannot validate / decode the value
+    _c(1, [[B(0, [["phase", 1]]), B(), B()], [B()]]),
+    _c(1, [[B(0, [["maybe", 1]], propagate=True), B(0, [["rec", 0]]), B()], [B(0, [["label", 1], ["phase", 0]]), B()]]),
+    _c(2, [[B(0, [["maybe", 0], ["phase", 1], ["echo"]]), B()], [B(0, [["open", "prod", 1, 0], ["iter"], ["label", 1]]), B()]]),
     # the same proxy method before, inside and after a stream (its caller is built once and cached by the proxy)
     _c(1, [[B(0, [["echo"], ["open", "prod", 3, 0], ["tick"], ["echo"], ["close"], ["echo"]]), B(), B()], [B()]]),
     _c(2, [[B(0, [["noisy", 1], ["open", "exch", 0, 0], ["send", 1], ["noisy", 1], ["close"]]), B()], [B(), B()]]),
@@ -707,9 +719,10 @@ def gen_ops(rng: Any) -> list[list[Any]]:
         r = rng.random()
         # the same proxy method repeated around a stream: before it (the proxy builds and caches the caller), inside it
         # (a call interleaved with the open stream) and after it
-        same = rng.choice([["echo"], ["echo"], ["noisy", 1], ["bad"]]) if rng.random() < 0.2 else None
+        same = rng.choice([["echo"], ["echo"], ["noisy", 1], ["bad"], ["phase", 1], ["maybe", 1]]) if rng.random() < 0.2 else None
         if r < 0.35:
-            ops.append(rng.choice([["echo"], ["echo"], ["noisy", rng.choice([1, 2, 3])], ["bad"]]))
+            ops.append(rng.choice([["echo"], ["echo"], ["noisy", rng.choice([1, 2, 3])], ["bad"],
+                                   [rng.choice(SKEWED), rng.choice([0, 1, 1])]]))
             continue
         kind = rng.choice(["prod", "prod", "prodh", "exch", "exch", "badstream"])
         n, logs = rng.choice([0, 1, 2, 3]), rng.choice([0, 1, 2])
